@@ -411,6 +411,8 @@ def rederive_known(k):
 
 
 def shrink(f):
+    if f and f.get('kind') == 'interleaved_streams':
+        return f
     """Delta-debug the text / bytes of the failing case, keeping the failure class."""
     if not f or 'kind' not in f:
         return f
@@ -459,6 +461,10 @@ def shrink(f):
 
 def replay(payload):
     f = payload.get('failure')
+    if f and f.get('kind') == 'interleaved_streams':
+        from props import C20 as _c20
+        g = _c20.oracle(f)
+        return {'fails': bool(g), 'observed': g}
     if not f or 'kind' not in f:
         return {'fails': False, 'note': 'no concrete case in replay file: ' + str(payload.get('no_longer_checks'))}
     g = oracle(_clean(f))
@@ -707,6 +713,9 @@ def sweep(ctx, res):
 
 def run(ctx):
     res = {'disagreements': [], 'failures': []}
+    # the stream front end consumed lazily while other calls are made (oracle in props/C20.py)
+    from props import C20 as _c20
+    res['failures'] += _c20.interleave_failures()[:1]
     n = ctx.n(20000, 100000)
     nd, nu, stuck, stuck2, dist, fb = corr_decode(ctx, n, res)
     na = corr_api(ctx, ctx.n(1500, 15000), res)
